@@ -141,6 +141,9 @@ for _nm, _b0, _b4, _need in (("df00", 0x02, -1, 7), ("df11", 0x5d, -1, 7), ("df1
 add("x_fo_0", "adsb_deku", F + "obl_x_frame_only", args="0, 0x98", props=["X"], unwind=20, kani_flags=FAST)
 add("x_fo_14", "adsb_deku", F + "obl_x_frame_only", args="14, 0x98", props=["X"], unwind=20, kani_flags=FAST)
 
+add("crc_native", "adsb_deku", L + "obl_crc_native", props=["C03-native"], stubs=[], tier="native",
+    domain="native search / replay only", functions=["crc::modes_checksum"])
+
 
 def select(prop, tier):
     out = []
